@@ -1640,6 +1640,477 @@ Proof.
   rewrite (spec_scan_rev now ws [] readTs o Hr), <- Hfwd, Hl1, Hl2, filter_rev_eq, !map_rev. reflexivity.
 Qed.
 
+(** * Forward Seek = Rewind with the lower bound raised to the (clamped) target *)
+Lemma before_mono k v x y : before false k v x = false -> rlt x y -> before false k v y = false.
+Proof.
+  unfold before. intros Hx Hlt. destruct (kcmp (r_key x) (r_ver x) k v) eqn:E; try discriminate.
+  - apply kcmp_eq in E as [<- <-]. unfold rlt, rcmp in Hlt. rewrite kcmp_antisym, Hlt. reflexivity.
+  - rewrite kcmp_antisym in E. destruct (kcmp k v (r_key x) (r_ver x)) eqn:E2; try discriminate.
+    pose proof (kcmp_lt_trans _ _ _ _ _ _ E2 Hlt) as H. rewrite kcmp_antisym, H. reflexivity.
+Qed.
+
+Lemma drop_while_before k v l :
+  sorted l -> drop_while (before false k v) l = filter (fun x => negb (before false k v x)) l.
+Proof.
+  induction l as [|x l IH]; intro Hs; [reflexivity|]. cbn [drop_while filter].
+  pose proof (sorted_cons_inv _ _ Hs) as [Hsl Hf]. destruct (before false k v x) eqn:E; cbn [negb]; [now apply IH|].
+  f_equal. symmetry. apply filter_all. intros y Hy. rewrite Forall_forall in Hf.
+  now rewrite (before_mono k v x y E (Hf y Hy)).
+Qed.
+
+Lemma before_ik k v x y : ik_eqb x y = true -> negb (before false k v y) = negb (before false k v x).
+Proof. intro H. apply ik_eqb_spec in H as [Hk Hv]. unfold before. now rewrite Hk, Hv. Qed.
+
+Lemma txn_stream_seek s readTs k v :
+  iter_inv s ->
+  txn_stream current s false readTs [] (PSeek k v)
+  = filter (fun x => negb (before false k v x)) (filter (visible readTs) (fstream s)).
+Proof.
+  intro Hi. unfold txn_stream. cbn [app dcmp lsm_pos].
+  assert (Hsrc : Forall sorted (lsm_sources current s)) by (apply lsm_sources_sorted, Hi).
+  set (srcs := lsm_sources current s) in *. set (nb := fun x => negb (before false k v x)).
+  assert (E : map (fun l => filter (visible readTs) (drop_while (before false k v) l)) srcs
+              = map (filter (visible readTs)) (map (filter nb) srcs)).
+  { rewrite map_map. apply map_ext_in. intros a Ha. rewrite Forall_forall in Hsrc. now rewrite (drop_while_before k v a (Hsrc a Ha)). }
+  rewrite E.
+  assert (Hsrc' : Forall sorted (map (filter (visible readTs)) (map (filter nb) srcs))).
+  { apply Forall_forall. intros l Hl. apply in_map_iff in Hl as (a & <- & Ha). apply in_map_iff in Ha as (a0 & <- & Ha0).
+    apply sorted_filter, sorted_filter. rewrite Forall_forall in Hsrc. auto. }
+  destruct (mtree_owns _ Hsrc') as [Hs1 Hm1]. destruct (mtree_owns _ Hsrc) as [Hs2 Hm2].
+  apply sorted_ext; [exact Hs1 | apply sorted_filter, sorted_filter; exact Hs2|].
+  intro x. rewrite Hm1, !filter_In. fold (fstream s). unfold fstream. fold srcs. rewrite Hm2.
+  rewrite (owner_filter x (visible readTs) _ (visible_ik readTs x)), (owner_filter x nb _ (before_ik k v x)).
+  unfold nb. destruct (visible readTs x), (negb (before false k v x)); split; try tauto; try discriminate;
+    intros [[_ H] H']; discriminate.
+Qed.
+
+Definition with_lower (o : topts) (lo : bytes) : topts :=
+  {| o_rev := o_rev o; o_all := o_all o; o_keyonly := o_keyonly o; o_pik := o_pik o; o_prefix := o_prefix o;
+     o_since := o_since o; o_lower := lo; o_upper := o_upper o |}.
+
+(** on records at or above [lo] (or outside the default column family) the two option records judge alike *)
+Definition above (lo : bytes) (x : rec) : Prop :=
+  let '(cf, u) := split_base (r_key x) in cf <> cf_default \/ bytes_ltb u lo = false.
+
+Lemma judge_lower now readTs o lo last x :
+  o_rev o = false -> above lo x -> above (o_lower o) x \/ o_lower o = [] ->
+  judge current now readTs (with_lower o lo) last x = judge current now readTs o last x.
+Proof.
+  intros Hr Ha Hb. unfold judge, above in *. destruct (split_base (r_key x)) as [cf u].
+  cbn [with_lower o_lower o_upper o_rev o_all o_since o_prefix o_pik current fix_txn_cf fix_tomb_last andb].
+  destruct (cf =? cf_default) eqn:Ecf; cbn [negb]; [|reflexivity].
+  apply N.eqb_eq in Ecf. destruct Ha as [Ha|Ha]; [contradiction|]. rewrite Ha, andb_false_r.
+  assert (nonempty (o_lower o) && bytes_ltb u (o_lower o) = false) as ->.
+  { destruct Hb as [[Hb|Hb]|Hb]; [contradiction | now rewrite Hb, andb_false_r | now rewrite Hb]. }
+  reflexivity.
+Qed.
+
+Lemma trun_lower now readTs o lo :
+  o_rev o = false ->
+  forall l last, Forall (above lo) l -> Forall (fun x => above (o_lower o) x \/ o_lower o = []) l ->
+  trun current now readTs (with_lower o lo) last l = trun current now readTs o last l.
+Proof.
+  intro Hr. induction l as [|x l IH]; intros last H1 H2; [reflexivity|].
+  inversion H1; subst. inversion H2; subst. cbn [trun]. rewrite (judge_lower now readTs o lo last x); auto.
+  destruct (judge current now readTs o last x); [now apply IH | reflexivity | f_equal; now apply IH].
+Qed.
+
+Lemma trun_seek now readTs o lo :
+  o_rev o = false -> lo <> [] -> (o_lower o = [] \/ bytes_leb (o_lower o) lo = true) ->
+  forall l last, sorted l -> Forall (fun x => wf_key x = true) l -> Forall (fun x => r_ver x <= readTs) l ->
+  trun current now readTs o last (filter (fun x => negb (before false (enc_cf_key 0 lo) readTs x)) l)
+  = trun current now readTs (with_lower o lo) last l.
+Proof.
+  intros Hr Hlo Hle. induction l as [|x l IH]; intros last Hs Hw Hv; [reflexivity|].
+  inversion Hw as [|? ? Hwx Hwl]; subst. inversion Hv as [|? ? Hvx Hvl]; subst.
+  pose proof (sorted_cons_inv _ _ Hs) as [Hsl Hf].
+  destruct (wf_key_enc x Hwx) as (cf & u & Hsp & Hk & Hcf & _).
+  cbn [filter]. destruct (before false (enc_cf_key 0 lo) readTs x) eqn:Eb; cbn [negb].
+  - (* below the target: skipped by the raised lower bound *)
+    rewrite IH; auto. cbn [trun].
+    assert (Hj : judge current now readTs (with_lower o lo) last x = VSkip last).
+    { unfold before in Eb. destruct (kcmp (r_key x) (r_ver x) (enc_cf_key 0 lo) readTs) eqn:E; try discriminate.
+      apply kcmp_lt in E as [E|[_ E]]; [|lia].
+      unfold judge. rewrite Hsp. cbn [with_lower o_lower o_rev current fix_txn_cf andb].
+      destruct (cf =? cf_default) eqn:Ecf; cbn [negb]; [|reflexivity].
+      apply N.eqb_eq in Ecf. subst cf. rewrite Hk in E. change (enc_cf_key cf_default u) with (enc_cf_key 0 u) in E.
+      rewrite enc0_cmp in E. unfold bytes_ltb. rewrite E. destruct lo; [contradiction|]. cbn [nonempty andb]. now rewrite Hr. }
+    now rewrite Hj.
+  - (* at or above: nothing further is dropped, and the lower bounds no longer matter *)
+    assert (Hall : filter (fun y => negb (before false (enc_cf_key 0 lo) readTs y)) l = l).
+    { apply filter_all. intros y Hy. rewrite Forall_forall in Hf. now rewrite (before_mono _ _ x y Eb (Hf y Hy)). }
+    rewrite Hall. symmetry. apply trun_lower; auto.
+    + (* every record from here on is above lo *)
+      apply Forall_forall. intros y Hy.
+      assert (Eby : before false (enc_cf_key 0 lo) readTs y = false).
+      { destruct Hy as [<-|Hy]; [exact Eb|]. rewrite Forall_forall in Hf. exact (before_mono _ _ x y Eb (Hf y Hy)). }
+      assert (Hwy : wf_key y = true) by (destruct Hy as [<-|Hy]; [exact Hwx | rewrite Forall_forall in Hwl; auto]).
+      destruct (wf_key_enc y Hwy) as (cfy & uy & Hspy & Hky & _ & _). unfold above. rewrite Hspy.
+      destruct (N.eq_dec cfy cf_default) as [->|Hne]; [right | now left].
+      unfold before in Eby. rewrite Hky in Eby. unfold kcmp in Eby. change (enc_cf_key cf_default uy) with (enc_cf_key 0 uy) in Eby.
+      rewrite enc0_cmp in Eby. unfold bytes_ltb. destruct (bytes_cmp uy lo); [reflexivity | discriminate | reflexivity].
+    + apply Forall_forall. intros y Hy. destruct Hle as [Hle|Hle]; [now right | left].
+      assert (Eby : before false (enc_cf_key 0 lo) readTs y = false).
+      { destruct Hy as [<-|Hy]; [exact Eb|]. rewrite Forall_forall in Hf. exact (before_mono _ _ x y Eb (Hf y Hy)). }
+      assert (Hwy : wf_key y = true) by (destruct Hy as [<-|Hy]; [exact Hwx | rewrite Forall_forall in Hwl; auto]).
+      destruct (wf_key_enc y Hwy) as (cfy & uy & Hspy & Hky & _ & _). unfold above. rewrite Hspy.
+      destruct (N.eq_dec cfy cf_default) as [->|Hne]; [right | now left].
+      unfold before in Eby. rewrite Hky in Eby. unfold kcmp in Eby. change (enc_cf_key cf_default uy) with (enc_cf_key 0 uy) in Eby.
+      rewrite enc0_cmp in Eby.
+      assert (Hlu : bytes_leb lo uy = true).
+      { rewrite bytes_leb_ltb. unfold bytes_ltb. destruct (bytes_cmp uy lo); [reflexivity | discriminate | reflexivity]. }
+      pose proof (bytes_leb_trans _ _ _ Hle Hlu) as H. rewrite bytes_leb_ltb in H. now apply negb_true_iff in H.
+Qed.
+
+Lemma key_items_ext now ws pw readTs so1 so2 u :
+  so_all so1 = so_all so2 -> so_since so1 = so_since so2 ->
+  key_items now ws pw readTs so1 u = key_items now ws pw readTs so2 u.
+Proof. intros Ha Hs. unfold key_items, ver_ok. now rewrite Ha, Hs. Qed.
+
+Lemma spec_scan_ext now ws pw readTs so1 so2 :
+  so_rev so1 = so_rev so2 -> so_all so1 = so_all so2 -> so_since so1 = so_since so2 ->
+  (forall u, key_ok so1 u = key_ok so2 u) ->
+  spec_scan now ws pw readTs so1 = spec_scan now ws pw readTs so2.
+Proof.
+  intros Hr Ha Hs Hk. unfold spec_scan. rewrite Hr. rewrite (filter_ext _ _ Hk).
+  replace (flat_map (key_items now ws pw readTs so1) (filter (key_ok so2) (ukeys ws pw)))
+    with (flat_map (key_items now ws pw readTs so2) (filter (key_ok so2) (ukeys ws pw))); [reflexivity|].
+  apply flat_map_ext. intro u. symmetry. now apply key_items_ext.
+Qed.
+
+Lemma spec_scan_none now ws pw readTs so :
+  (forall u, key_ok so u = false) -> spec_scan now ws pw readTs so = [].
+Proof.
+  intro H. unfold spec_scan. rewrite (filter_nil (key_ok so)); [now destruct (so_rev so)|]. intros; apply H.
+Qed.
+
+Lemma ltb_leb_trans' a b c : bytes_ltb a b = true -> bytes_leb b c = true -> bytes_leb a c = true.
+Proof.
+  intros H1 H2. pose proof (bytes_ltb_leb_trans _ _ _ H1 H2) as H. rewrite bytes_leb_ltb.
+  apply negb_true_iff. destruct (bytes_ltb c a) eqn:E; [|reflexivity].
+  pose proof (bytes_ltb_trans _ _ _ H E) as H3. now rewrite bytes_ltb_irrefl in H3.
+Qed.
+
+Theorem txn_scan_fwd_seek now s ws readTs o key :
+  iter_inv s -> content_ok s ws -> seq_functional ws -> (forall w, In w ws -> wf_key w = true) ->
+  o_rev o = false -> key <> [] ->
+  map item_sitem (txn_list current now s readTs [] o (ASeek key)) = spec_scan now ws [] readTs (sopts_of o (Some key)).
+Proof.
+  intros Hi Hc Hf Hw Hr Hkey.
+  destruct (rev_T_facts s ws readTs Hi Hc Hw) as (HsT & HwT & HvT).
+  set (T := filter (visible readTs) (fstream s)) in *.
+  destruct key as [|b0 key0]; [contradiction|].
+  unfold txn_list. rewrite Hr. cbn [negb]. set (key := b0 :: key0) in *.
+  destruct (nonempty (o_upper o) && bytes_leb (o_upper o) key) eqn:Eup.
+  { (* target at or above the upper bound *)
+    cbn [map]. symmetry. apply spec_scan_none. intro u. unfold key_ok. cbn [sopts_of so_lower so_upper so_prefix so_pik so_target so_rev].
+    rewrite Hr. apply andb_true_iff in Eup as [Hne Hle]. unfold nonemptyb. unfold nonempty in Hne. rewrite Hne. cbn [negb orb].
+    destruct (bytes_leb key u) eqn:E1; [|now rewrite andb_false_r].
+    pose proof (bytes_leb_trans _ _ _ Hle E1) as H. rewrite bytes_leb_ltb in H. apply negb_true_iff in H. rewrite H.
+    now rewrite !andb_false_r. }
+  set (key' := if nonempty (o_lower o) && bytes_ltb key (o_lower o) then o_lower o else key).
+  assert (Hk'ne : key' <> []).
+  { unfold key'. destruct (nonempty (o_lower o) && bytes_ltb key (o_lower o)) eqn:E; [|discriminate].
+    apply andb_true_iff in E as [E _]. destruct (o_lower o); [discriminate | discriminate]. }
+  assert (Hk'lo : o_lower o = [] \/ bytes_leb (o_lower o) key' = true).
+  { unfold key'. destruct (nonempty (o_lower o) && bytes_ltb key (o_lower o)) eqn:E; [right; apply bytes_leb_refl|].
+    destruct (o_lower o) as [|l0 lo0] eqn:El; [now left | right]. cbn [nonempty andb] in E.
+    rewrite bytes_leb_ltb. now rewrite E. }
+  unfold txn_base. rewrite collect_trun, (txn_stream_seek s readTs _ _ Hi). fold T.
+  change (enc_cf_key cf_default key') with (enc_cf_key 0 key').
+  rewrite (trun_seek now readTs o key' Hr Hk'ne Hk'lo T [] HsT HwT HvT).
+  assert (Hrw : trun current now readTs (with_lower o key') [] T = txn_list current now s readTs [] (with_lower o key') ARewind).
+  { unfold txn_list. cbn [with_lower o_rev]. rewrite Hr, collect_trun, (txn_stream_fwd s readTs Hi). reflexivity. }
+  rewrite Hrw.
+  assert (Hspec : map item_sitem (txn_list current now s readTs [] (with_lower o key') ARewind)
+                  = spec_scan now ws [] readTs (sopts_of (with_lower o key') None)).
+  { destruct (o_all o) eqn:Ea.
+    - apply txn_scan_fwd_all; auto.
+    - apply txn_scan_fwd; auto. }
+  rewrite Hspec. apply spec_scan_ext; try reflexivity.
+  intro u. unfold key_ok. cbn [sopts_of with_lower so_lower so_upper so_prefix so_pik so_target so_rev o_lower o_upper o_prefix o_pik o_rev].
+  rewrite Hr, andb_true_r.
+  assert (Hmain : (negb (nonemptyb key') || bytes_leb key' u)
+                  = (negb (nonemptyb (o_lower o)) || bytes_leb (o_lower o) u) && bytes_leb key u).
+  { assert (nonemptyb key' = true) as -> by (destruct key'; [contradiction | reflexivity]). cbn [negb orb].
+    unfold key'. destruct (nonempty (o_lower o) && bytes_ltb key (o_lower o)) eqn:E.
+    - apply andb_true_iff in E as [E1 E2]. unfold nonemptyb. unfold nonempty in E1. rewrite E1. cbn [negb orb].
+      destruct (bytes_leb (o_lower o) u) eqn:E3; [|reflexivity]. now rewrite (ltb_leb_trans' _ _ _ E2 E3).
+    - destruct (o_lower o) as [|l0 lo0] eqn:El; [reflexivity|]. cbn [nonempty nonemptyb andb negb orb] in *.
+      destruct (bytes_leb key u) eqn:E3; [|now rewrite andb_false_r]. rewrite andb_true_r.
+      assert (bytes_leb (l0 :: lo0) key = true) by (rewrite bytes_leb_ltb; now rewrite E).
+      now rewrite (bytes_leb_trans _ _ _ H E3). }
+  rewrite Hmain.
+  generalize (negb (nonemptyb (o_lower o)) || bytes_leb (o_lower o) u), (bytes_leb key u),
+    (negb (nonemptyb (o_upper o)) || bytes_ltb u (o_upper o)),
+    (negb (nonemptyb (o_prefix o)) || (if o_pik o then bytes_eqb u (o_prefix o) else is_prefix (o_prefix o) u)).
+  intros [] [] [] []; reflexivity.
+Qed.
+
+(** * DB.NewIterator backwards, outside the class of finding C06-F10 *)
+Lemma db_stream_rev s :
+  iter_inv s -> (forall y, In y (fstream s) -> r_ver y <= max_u64) ->
+  db_stream current s true PRewind = rev (fstream s).
+Proof.
+  intros Hi Hv. rewrite <- (filter_all (visible max_u64) (fstream s)) at 1.
+  2:{ intros y Hy. unfold visible. apply N.leb_le. now apply Hv. }
+  rewrite <- (txn_stream_rev s max_u64 Hi). unfold db_stream, txn_stream. cbn [app]. f_equal.
+  apply map_ext_in. intros a Ha. cbn [lsm_pos]. symmetry. apply filter_all. intros y Hy. apply in_rev in Hy.
+  unfold visible. apply N.leb_le.
+  (* every record of a source is represented in the stream by a record of the same version *)
+  destruct Hi as [Hsrc Ht].
+  assert (Hyall : In y (concat (lsm_sources current s))) by (apply in_concat; eauto).
+  destruct (owner_exists y _ Hyall) as [z Hz].
+  pose proof (owner_idem _ _ _ Hz) as Hzz. destruct (owner_some _ _ _ Hz) as [_ He]. apply ik_eqb_spec in He as [_ Hver].
+  rewrite <- Hver. apply Hv.
+  apply (proj2 (mtree_owns _ (lsm_sources_sorted s Hsrc)) z). exact Hzz.
+Qed.
+
+Lemma db_run_filter_rev now od : d_asc od = false ->
+  forall l, rsorted l -> Forall (fun x => wf_key x = true) l ->
+  Forall (fun r => fst (split_base (r_key r)) = cf_default) l ->
+  db_run current now od l = map mk_item (filter (good now (topts_of_d od)) l).
+Proof.
+  intros Hasc. induction l as [|x l IH]; intros Hs Hw Hc; [reflexivity|].
+  inversion Hw as [|? ? Hwx Hwl]; subst. inversion Hc as [|? ? Hcx Hcl]; subst.
+  pose proof (gsorted_cons_inv rcmp' _ _ Hs) as [Hsl Hf].
+  destruct (wf_key_enc x Hwx) as (cf & u & Hsp & Hk & _ & _). rewrite Hsp in Hcx. cbn [fst] in Hcx. subst cf.
+  cbn [db_run filter]. rewrite Hsp. cbn [snd]. rewrite Hasc.
+  assert (Hg : good now (topts_of_d od) x =
+               negb (nonempty (d_lower od) && bytes_ltb u (d_lower od))
+               && negb (nonempty (d_upper od) && bytes_leb (d_upper od) u) && negb (deadb now x)).
+  { unfold good, keyfilt, since_ok. rewrite Hsp. cbn [topts_of_d o_lower o_upper o_prefix o_since o_pik nonempty andb negb].
+    change (cf_default =? cf_default) with true. change (0 <? 0) with false. cbn [andb negb]. now rewrite !andb_true_r. }
+  rewrite Hg.
+  destruct (nonempty (d_lower od) && bytes_ltb u (d_lower od)) eqn:Elo; cbn [negb andb].
+  { rewrite filter_nil; [reflexivity|]. intros y Hy.
+    rewrite Forall_forall in Hwl, Hcl. destruct (wf_key_enc y (Hwl y Hy)) as (cfy & uy & Hspy & Hky & _ & _).
+    pose proof (Hcl y Hy) as Hcy. rewrite Hspy in Hcy. cbn [fst] in Hcy. subst cfy.
+    unfold good, keyfilt. rewrite Hspy. cbn [topts_of_d o_lower o_upper]. apply andb_true_iff in Elo as [Hne Hlt]. rewrite Hne.
+    assert (Hyx : bytes_leb uy u = true).
+    { rewrite Forall_forall in Hf. specialize (Hf y Hy). unfold glt, rcmp' in Hf.
+      pose proof (rlt_key_le _ _ Hf) as H. rewrite Hk, Hky in H. unfold bytes_leb in *. now rewrite enc0_cmp in H. }
+    rewrite (bytes_leb_ltb_trans _ _ _ Hyx Hlt). cbn [negb andb]. reflexivity. }
+  destruct (nonempty (d_upper od) && bytes_leb (d_upper od) u) eqn:Eup; cbn [negb andb]; [now apply IH|].
+  unfold db_dead. cbn [current fix_db_dead]. destruct (deadb now x); cbn [negb map]; [now apply IH|].
+  f_equal. now apply IH.
+Qed.
+
+Theorem db_scan_rev_partial now s ws od :
+  iter_inv s -> content_ok s ws -> seq_functional ws ->
+  (forall w, In w ws -> wf_key w = true /\ r_ver w <= max_u64) ->
+  simple_stream (fstream s) = true -> d_asc od = false ->
+  map item_sitem (db_list current now s od ARewind) = spec_scan now ws [] max_u64 (sopts_of_d od None).
+Proof.
+  intros Hi Hc Hf Hw Hsim Hasc.
+  assert (Hw1 : forall w, In w ws -> wf_key w = true) by (intros w Hw'; now apply Hw).
+  assert (Hws : forall y, In y (fstream s) -> In y ws) by (intros y Hy; apply (proj1 Hc); now apply fstream_sound).
+  assert (Hr : o_rev (topts_of_d od) = true) by (cbn; now rewrite Hasc).
+  pose proof (fstream_sorted s Hi) as HsS.
+  pose proof Hsim as Hsim'. apply andb_true_iff in Hsim' as [Hcf Hnr]. rewrite forallb_forall in Hcf.
+  assert (HT : filter (visible max_u64) (fstream s) = fstream s).
+  { apply filter_all. intros y Hy. unfold visible. apply N.leb_le. now apply Hw, Hws. }
+  assert (Hn : no_repeat (filter (visible max_u64) (fstream s)) = true) by now rewrite HT.
+  unfold sopts_of_d. rewrite <- (txn_scan_rev_partial now s ws max_u64 (topts_of_d od) Hi Hc Hf Hw1 Hn Hr eq_refl). f_equal.
+  unfold db_list, txn_list. rewrite Hr, Hasc. cbn [negb].
+  rewrite collect_trun, (txn_stream_rev s max_u64 Hi), HT, (db_stream_rev s Hi).
+  2:{ intros y Hy. now apply Hw, Hws. }
+  rewrite (trun_rev now max_u64 (topts_of_d od) Hr (rev (fstream s)) []).
+  - apply db_run_filter_rev; auto.
+    + now apply rev_rsorted.
+    + apply Forall_rev, Forall_forall. intros y Hy. now apply Hw1, Hws.
+    + apply Forall_rev, Forall_forall. intros y Hy. apply N.eqb_eq. now apply Hcf.
+  - now apply rev_rsorted.
+  - right. apply kdesc_rev. now apply no_repeat_kasc.
+  - apply Forall_rev, Forall_forall. intros y Hy. now apply Hw1, Hws.
+  - apply Forall_rev, Forall_forall. intros y Hy. now apply Hw, Hws.
+  - right. now left.
+Qed.
+
+(** * DB.NewIterator forward Seek, outside the class of finding C06-F10 *)
+Lemma kasc_no_repeat l :
+  StronglySorted (fun a b => bytes_cmp (r_key a) (r_key b) = Lt) l -> no_repeat l = true.
+Proof.
+  induction 1 as [|x l Hs IH Hf]; [reflexivity|]. destruct l as [|y l']; [reflexivity|].
+  change (no_repeat (x :: y :: l')) with (negb (bytes_eqb (r_key x) (r_key y)) && no_repeat (y :: l')).
+  rewrite IH, andb_true_r. apply negb_true_iff, bytes_eqb_neq. intro E.
+  inversion Hf as [|? ? Hxy _]; subst. rewrite E, bytes_cmp_refl in Hxy. discriminate.
+Qed.
+
+Lemma simple_filter f l : sorted l -> no_repeat l = true -> no_repeat (filter f l) = true.
+Proof. intros Hs Hn. apply kasc_no_repeat, ssorted_filter. now apply no_repeat_kasc. Qed.
+
+Lemma db_stream_seek s k :
+  iter_inv s -> (forall y, In y (all_recs (tiers_of s)) -> r_ver y <= max_u64) ->
+  db_stream current s false (PSeek k max_u64) = txn_stream current s false max_u64 [] (PSeek k max_u64).
+Proof.
+  intros Hi Hv. unfold db_stream, txn_stream. cbn [app]. f_equal. apply map_ext_in. intros a Ha.
+  symmetry. apply filter_all. intros y Hy. unfold visible. apply N.leb_le.
+  assert (Hya : In y a).
+  { cbn [lsm_pos] in Hy. clear - Hy. induction a as [|z a IH]; [contradiction|]. cbn [drop_while] in Hy.
+    destruct (before false k max_u64 z); [right; now apply IH | exact Hy]. }
+  destruct Hi as [Hsrc Ht].
+  assert (Hyall : In y (concat (lsm_sources current s))) by (apply in_concat; eauto).
+  destruct (owner_exists y _ Hyall) as [z Hz]. rewrite owner_sources in Hz.
+  destruct (owner_some _ _ _ Hz) as [Hzin He]. apply ik_eqb_spec in He as [_ Hver].
+  rewrite <- Hver. now apply Hv.
+Qed.
+
+Theorem db_scan_fwd_seek_partial now s ws od key :
+  iter_inv s -> content_ok s ws -> seq_functional ws ->
+  (forall w, In w ws -> wf_key w = true /\ r_ver w <= max_u64) ->
+  simple_stream (fstream s) = true -> d_asc od = true -> key <> [] ->
+  map item_sitem (db_list current now s od (ASeek key)) = spec_scan now ws [] max_u64 (sopts_of_d od (Some key)).
+Proof.
+  intros Hi Hc Hf Hw Hsim Hasc Hkey.
+  assert (Hw1 : forall w, In w ws -> wf_key w = true) by (intros w Hw'; now apply Hw).
+  assert (Hws : forall y, In y (fstream s) -> In y ws) by (intros y Hy; apply (proj1 Hc); now apply fstream_sound).
+  assert (Hr : o_rev (topts_of_d od) = false) by (cbn; now rewrite Hasc).
+  unfold sopts_of_d. rewrite <- (txn_scan_fwd_seek now s ws max_u64 (topts_of_d od) key Hi Hc Hf Hw1 Hr Hkey). f_equal.
+  pose proof (fstream_sorted s Hi) as HsS.
+  apply andb_true_iff in Hsim as [Hcf Hnr]. rewrite forallb_forall in Hcf.
+  assert (HT : filter (visible max_u64) (fstream s) = fstream s).
+  { apply filter_all. intros y Hy. unfold visible. apply N.leb_le. now apply Hw, Hws. }
+  destruct key as [|b0 key0]; [contradiction|].
+  unfold db_list, txn_list. rewrite Hr, Hasc. cbn [negb topts_of_d o_upper o_lower].
+  destruct (nonempty (d_upper od) && bytes_leb (d_upper od) (b0 :: key0)); [reflexivity|].
+  set (key' := if nonempty (d_lower od) && bytes_ltb (b0 :: key0) (d_lower od) then d_lower od else b0 :: key0).
+  unfold db_base, txn_base. rewrite (db_stream_seek s _ Hi).
+  2:{ intros y Hy. apply Hw. now apply (proj1 Hc). }
+  rewrite collect_trun, (txn_stream_seek s max_u64 _ _ Hi), HT.
+  set (nb := fun x => negb (before false (enc_cf_key cf_default key') max_u64 x)).
+  assert (Hsub : forall y, In y (filter nb (fstream s)) -> In y (fstream s)) by (intros y Hy; now apply filter_In in Hy).
+  rewrite (trun_pick now max_u64 (topts_of_d od) Hr eq_refl (filter nb (fstream s)) [] None).
+  - rewrite pick_filter; [|left; reflexivity | now apply simple_filter].
+    apply db_run_filter; auto.
+    + now apply sorted_filter.
+    + apply Forall_forall. intros y Hy. now apply Hw1, Hws, Hsub.
+    + apply Forall_forall. intros y Hy. apply N.eqb_eq. now apply Hcf, Hsub.
+  - cbn [psorted]. now apply sorted_filter.
+  - apply Forall_forall. intros y Hy. now apply Hw1, Hws, Hsub.
+  - apply Forall_forall. intros y Hy. now apply Hw, Hws, Hsub.
+  - reflexivity.
+Qed.
+
+(** * The specification as a relation *)
+(** proofs *)
+Lemma ukeys_in_gen ws pw u : In u (ukeys ws pw) <-> exists w, In w (ws ++ pw) /\ default_ukey (r_key w) = Some u.
+Proof.
+  unfold ukeys. rewrite key_set_in, opt_list_in, in_map_iff. split.
+  - intros (w & E & Hw). eauto.
+  - intros (w & Hw & E). eauto.
+Qed.
+
+Lemma default_ukey_sbase u : default_ukey (sbase u) = Some u.
+Proof. reflexivity. Qed.
+
+Lemma view_key ws pw readTs bk x : view ws pw readTs bk = Some x -> r_key x = bk /\ In x (ws ++ pw).
+Proof.
+  unfold view, view_at. rewrite N.eqb_refl. destruct (pending_of pw bk) as [p|] eqn:E.
+  - intro H. injection H as <-. unfold pending_of in E. apply find_some in E as [Hin Hk].
+    apply bytes_eqb_eq in Hk. split; [exact Hk | apply in_or_app; now right].
+  - intro H. destruct (latest_at_key _ _ _ _ H) as [Hk Hin]. split; [exact Hk | apply in_or_app; now left].
+Qed.
+
+Lemma key_items_in now ws pw readTs so u i :
+  so_all so = false ->
+  (In i (key_items now ws pw readTs so u) <->
+   exists x, view ws pw readTs (sbase u) = Some x /\ live now x = true /\ ver_ok so (r_ver x) = true /\ i = to_item u x).
+Proof.
+  intro Ha. unfold key_items. rewrite Ha. destruct (view ws pw readTs (sbase u)) as [x|].
+  - destruct (live now x && ver_ok so (r_ver x)) eqn:E.
+    + apply andb_true_iff in E as [E1 E2]. split.
+      * intros [<-|[]]. exists x. auto.
+      * intros (x' & Hx & _ & _ & ->). injection Hx as <-. now left.
+    + split; [intros []|]. intros (x' & Hx & H1 & H2 & _). injection Hx as <-. rewrite H1, H2 in E. discriminate.
+  - split; [intros [] | intros (x' & Hx & _); discriminate].
+Qed.
+
+Lemma key_items_keys now ws pw readTs so u i : In i (key_items now ws pw readTs so u) -> so_all so = false -> s_key i = u.
+Proof. intros Hi Ha. apply (key_items_in now ws pw readTs so u i Ha) in Hi as (x & _ & _ & _ & ->). reflexivity. Qed.
+
+Lemma flat_map_items_sorted now ws pw readTs so ks :
+  so_all so = false -> StronglySorted blt ks ->
+  StronglySorted (key_order false) (flat_map (key_items now ws pw readTs so) ks).
+Proof.
+  intros Ha Hs. induction Hs as [|u ks Hs IH Hf]; cbn [flat_map]; [constructor|].
+  apply ssorted_app; [|exact IH|].
+  - unfold key_items. rewrite Ha. destruct (view ws pw readTs (sbase u)) as [x|]; [|constructor].
+    destruct (live now x && ver_ok so (r_ver x)); repeat constructor.
+  - intros a b Hia Hib. apply in_flat_map in Hib as (u' & Hu' & Hib).
+    unfold key_order. rewrite (key_items_keys _ _ _ _ _ _ _ Hia Ha), (key_items_keys _ _ _ _ _ _ _ Hib Ha).
+    rewrite Forall_forall in Hf. now apply Hf.
+Qed.
+
+Lemma ssorted_rev {A} (R : A -> A -> Prop) l : StronglySorted R l -> StronglySorted (fun a b => R b a) (rev l).
+Proof.
+  induction 1 as [|x l Hs IH Hf]; cbn [rev]; [constructor|].
+  apply ssorted_app; [exact IH | repeat constructor|].
+  intros a b Ha [<-|[]]. apply in_rev in Ha. rewrite Forall_forall in Hf. now apply Hf.
+Qed.
+
+Theorem spec_scan_rel now ws pw readTs so :
+  so_all so = false -> scan_rel now ws pw readTs so (spec_scan now ws pw readTs so).
+Proof.
+  intro Ha. set (l0 := flat_map (key_items now ws pw readTs so) (filter (key_ok so) (ukeys ws pw))).
+  assert (Hs0 : StronglySorted (key_order false) l0) by (apply flat_map_items_sorted; [exact Ha | apply ssorted_filter, key_set_sorted]).
+  assert (Hm0 : forall i, In i l0 <-> item_visible now ws pw readTs so i).
+  { intro i. unfold l0. rewrite in_flat_map. split.
+    - intros (u & Hu & Hi). apply filter_In in Hu as [_ Hko].
+      apply (key_items_in now ws pw readTs so u i Ha) in Hi as (x & Hv & H1 & H2 & ->).
+      split; [exact Hko|]. exists x. auto.
+    - intros (Hko & x & Hv & H1 & H2 & H3 & H4). exists (s_key i). split.
+      + apply filter_In. split; [|exact Hko]. apply ukeys_in_gen.
+        destruct (view_key _ _ _ _ _ Hv) as [Hk Hin]. exists x. split; [exact Hin|]. rewrite Hk. apply default_ukey_sbase.
+      + apply (key_items_in now ws pw readTs so (s_key i) i Ha). exists x. repeat split; auto.
+        destruct i; cbn in *. unfold to_item. now rewrite H3, H4. }
+  unfold scan_rel, spec_scan. fold l0. destruct (so_rev so).
+  - split.
+    + eapply ssorted_impl; [|apply ssorted_rev; exact Hs0]. intros a b H. unfold key_order in *. cbn beta in H.
+      now apply bytes_cmp_gt_lt.
+    + intro i. rewrite <- in_rev. apply Hm0.
+  - split; [exact Hs0 | exact Hm0].
+Qed.
+
+(** the relation determines the listing *)
+Theorem scan_rel_unique now ws pw readTs so l1 l2 :
+  scan_rel now ws pw readTs so l1 -> scan_rel now ws pw readTs so l2 -> l1 = l2.
+Proof.
+  intros [Hs1 Hm1] [Hs2 Hm2]. apply (ssorted_ext (key_order (so_rev so))); auto.
+  - intros a H. unfold key_order in H. rewrite bytes_cmp_refl in H. destruct (so_rev so); discriminate.
+  - intros a b c H1 H2. unfold key_order in *. destruct (so_rev so).
+    + apply bytes_cmp_gt_lt in H1, H2. apply bytes_cmp_gt_lt. eapply bytes_cmp_lt_trans; eauto.
+    + eapply bytes_cmp_lt_trans; eauto.
+  - intro i. now rewrite Hm1, Hm2.
+Qed.
+
+Theorem scan_ok_b_rel now ws pw readTs so l :
+  so_all so = false -> (scan_ok_b now ws pw readTs so l = true <-> scan_rel now ws pw readTs so l).
+Proof.
+  intro Ha. rewrite scan_ok_b_spec. unfold is_scan. split.
+  - intros ->. now apply spec_scan_rel.
+  - intro H. eapply scan_rel_unique; [exact H | now apply spec_scan_rel].
+Qed.
+
+(** * Txn.Get against the snapshot's point read *)
+Lemma txn_get_spec now s ws readTs u :
+  iter_inv s -> content_ok s ws -> seq_functional ws ->
+  (forall x, latest_at ws (sbase u) readTs = Some x -> nonempty (r_val x) = true \/ r_meta x <> 0) ->
+  txn_get now s readTs [] (sbase u) = spec_get now ws [] readTs u.
+Proof.
+  intros Hi Hc Hf Hne.
+  pose proof (get_latest s ws (sbase u) readTs (ii_src s Hi) (ii_tier s Hi) Hc Hf) as Hg.
+  unfold txn_get, spec_get, view, view_at. rewrite N.eqb_refl. cbn [find pending_of].
+  destruct (first_some (mem_get (sbase u) readTs (st_mem s) :: map (fun m => mem_get (sbase u) readTs (snd m)) (rev (st_imms s)))) as [r|] eqn:E.
+  - assert (Hgr : get s (sbase u) readTs = Some r) by (unfold get; now rewrite E).
+    rewrite <- Hg, Hgr, live_dead. now destruct (deadb now r).
+  - rewrite Hg. destruct (latest_at ws (sbase u) readTs) as [r|] eqn:El; [|reflexivity].
+    rewrite live_dead. destruct (Hne r eq_refl) as [H|H].
+    + rewrite H. cbn [negb andb]. now destruct (deadb now r).
+    + apply N.eqb_neq in H. rewrite H, andb_false_r. now destruct (deadb now r).
+Qed.
+
+
 (** * Witnesses *)
 From Coq Require Import String.
 Definition mkr (k : string) (ver : N) (v : string) (meta seq : N) : rec :=
@@ -1745,3 +2216,14 @@ Qed.
 
 Lemma ex_rev_hyp : no_repeat (filter (visible max_u64) (fstream s_db)) = true.
 Proof. vm_compute. reflexivity. Qed.
+
+(** finding C06-G1: a committed empty value read back from a table *)
+Definition s_g1 : state :=
+  {| st_mem := []; st_memid := 9; st_imms := [];
+     st_l0 := [{| t_fid := 1; t_recs := [{| r_key := sbase [x61]; r_ver := 1; r_val := []; r_meta := 0; r_exp := 0; r_seq := 1 |}] |}];
+     st_lvls := []; st_maxfid := 9 |}.
+Definition w_g1 : list rec := [{| r_key := sbase [x61]; r_ver := 1; r_val := []; r_meta := 0; r_exp := 0; r_seq := 1 |}].
+Lemma g1_refuted :
+  tier_inv_b s_g1 = true /\ txn_get 100 s_g1 1 [] (sbase [x61]) = None /\ spec_get 100 w_g1 [] 1 [x61] = Some [] /\
+  map item_sitem (txn_list current 100 s_g1 1 [] (plain_opts false false) ARewind) = [ {| s_key := [x61]; s_ver := 1; s_val := [] |} ].
+Proof. vm_compute. auto. Qed.
